@@ -49,20 +49,28 @@ Qed.
 Lemma NoDup_filter' {X} (f : X -> bool) l : NoDup l -> NoDup (filter f l).
 Proof. induction 1 as [|x l Hx Hn IH]; simpl; [constructor|]. destruct (f x); auto. constructor; auto. rewrite filter_In. tauto. Qed.
 
-Theorem life_accounts : forall ops vals b,
+(* the field values after a sequence: the last write to each field wins *)
+Fixpoint apply_ops (vals : nat -> nat) (ops : list lop) : nat -> nat :=
+  match ops with
+  | [] => vals
+  | LGet _ _ :: rest => apply_ops vals rest
+  | LSet i x :: rest => apply_ops (upd vals i x) rest
+  end.
+
+Theorem life_accounts_vals : forall ops vals b,
   holds ds TI cap A data vals b -> Forall (fun o => In (lop_field o) data) ops ->
-  exists b' vals' d, life b ops = Ok (b', d) /\ holds ds TI cap A data vals' b' /\
-    Permutation (d ++ map vals' (filter (dr ds TI) data)) (map vals (filter (dr ds TI) data) ++ written_in ops).
+  exists b' d, life b ops = Ok (b', d) /\ holds ds TI cap A data (apply_ops vals ops) b' /\
+    Permutation (d ++ map (apply_ops vals ops) (filter (dr ds TI) data)) (map vals (filter (dr ds TI) data) ++ written_in ops).
 Proof.
   induction ops as [|o ops IH]; intros vals b H HF.
-  - exists b, vals, []. simpl. rewrite app_nil_r. auto.
+  - exists b, []. simpl. rewrite app_nil_r. auto.
   - inversion HF as [|? ? Hi HF']; subst. destruct o as [i m|i x]; simpl in Hi.
-    + destruct (IH vals b H HF') as (b' & vals' & d & E & H' & P).
-      exists b', vals', d. cbn [life]. rewrite (get_holds ds TI rt A cap RT data L vals b i m H Hi).
+    + destruct (IH vals b H HF') as (b' & d & E & H' & P).
+      exists b', d. cbn [life apply_ops]. rewrite (get_holds ds TI rt A cap RT data L vals b i m H Hi).
       split; [exact E|]. split; [exact H'|exact P].
     + destruct (set_holds ds TI rt A cap RT data L vals b i x H Hi) as (b1 & E1 & H1).
-      destruct (IH (upd vals i x) b1 H1 HF') as (b' & vals' & d & E & H' & P).
-      exists b', vals', ((if dr ds TI i then [vals i] else []) ++ d). cbn [life]. rewrite E1, E.
+      destruct (IH (upd vals i x) b1 H1 HF') as (b' & d & E & H' & P).
+      exists b', ((if dr ds TI i then [vals i] else []) ++ d). cbn [life apply_ops]. rewrite E1, E.
       split; [reflexivity|]. split; [exact H'|].
       rewrite <- app_assoc. eapply Permutation_trans; [apply Permutation_app_head; exact P|].
       cbn [written_in flat_map]. fold (written_in ops). rewrite !app_assoc. apply Permutation_app_tail.
@@ -74,6 +82,15 @@ Proof.
       * simpl. rewrite app_nil_r. replace (map (upd vals i x) (filter (dr ds TI) data)) with (map vals (filter (dr ds TI) data)); auto.
         apply map_ext_in. intros k Hk. apply filter_In in Hk. unfold upd. destruct (Nat.eqb k i) eqn:E'; auto.
         apply Nat.eqb_eq in E'. subst. destruct Hk as [_ Hk]. congruence.
+Qed.
+
+Theorem life_accounts : forall ops vals b,
+  holds ds TI cap A data vals b -> Forall (fun o => In (lop_field o) data) ops ->
+  exists b' vals' d, life b ops = Ok (b', d) /\ holds ds TI cap A data vals' b' /\
+    Permutation (d ++ map vals' (filter (dr ds TI) data)) (map vals (filter (dr ds TI) data) ++ written_in ops).
+Proof.
+  intros ops vals b H HF. destruct (life_accounts_vals ops vals b H HF) as (b' & d & E & H' & P).
+  exists b', (apply_ops vals ops), d. auto.
 Qed.
 
 (* ... and then the generated Drop: everything that ever entered the record is destroyed exactly once *)
@@ -97,5 +114,56 @@ Theorem life_then_unpack : forall ops vals b v,
 Proof.
   intros ops vals b v H HF. destruct (life_accounts ops vals b H HF) as (b' & vals' & d & E & H' & P).
   exists b', vals', d. split; [exact E|]. split; [apply (unpack_holds ds TI rt A cap data L v vals' b' H')|exact P].
+Qed.
+
+(* ---- clone_from: every field of the target is assigned (through its mutable accessor) a value computed
+   from the source; the target then holds exactly those values and its previous droppable values were
+   destroyed, each once *)
+Definition assign_all (f : nat -> nat) (l : list nat) : list lop := map (fun i => LSet i (f i)) l.
+
+Lemma apply_ops_notin ops : forall vals i, (forall o, In o ops -> match o with LSet j _ => j <> i | LGet _ _ => True end) ->
+  apply_ops vals ops i = vals i.
+Proof.
+  induction ops as [|o r IH]; intros vals i H; simpl; auto. destruct o as [j m|j x].
+  - apply IH. intros o Ho. apply H. now right.
+  - rewrite IH by (intros o Ho; apply H; now right). unfold upd.
+    pose proof (H (LSet j x) (or_introl eq_refl)) as Hne. simpl in Hne.
+    destruct (Nat.eqb i j) eqn:E; auto. apply Nat.eqb_eq in E. congruence.
+Qed.
+
+Lemma apply_assign_all f : forall l vals i, NoDup l -> In i l -> apply_ops vals (assign_all f l) i = f i.
+Proof.
+  induction l as [|j r IH]; intros vals i Hn Hi; [destruct Hi|]. inversion Hn as [|? ? Hj Hn']; subst. simpl.
+  destruct Hi as [->|Hi].
+  - rewrite apply_ops_notin.
+    + unfold upd. now rewrite Nat.eqb_refl.
+    + intros o Ho. unfold assign_all in Ho. apply in_map_iff in Ho. destruct Ho as (k & <- & Hk). intro; subst; tauto.
+  - apply IH; auto.
+Qed.
+
+Lemma written_assign_all f l : written_in (assign_all f l) = map f (filter (dr ds TI) l).
+Proof. induction l as [|i r IH]; simpl; auto. destruct (dr ds TI i); simpl; now rewrite IH. Qed.
+
+Lemma holds_ext vals vals' b : (forall i, In i data -> vals i = vals' i) -> holds ds TI cap A data vals b -> holds ds TI cap A data vals' b.
+Proof.
+  intros He [H1 H2 H3 H4]. constructor; auto.
+  replace (map (entry_of ds vals') data) with (map (entry_of ds vals) data); auto.
+  apply map_ext_in. intros i Hi. unfold entry_of. now rewrite (He i Hi).
+Qed.
+
+Theorem assign_all_holds : forall f tvals t, holds ds TI cap A data tvals t ->
+  exists t' d, life t (assign_all f data) = Ok (t', d) /\ holds ds TI cap A data f t' /\
+               Permutation d (map tvals (filter (dr ds TI) data)).
+Proof.
+  intros f tvals t H. pose proof (lo_nd _ _ _ _ _ L) as Hnd.
+  assert (HF : Forall (fun o => In (lop_field o) data) (assign_all f data)).
+  { apply Forall_forall. intros o Ho. unfold assign_all in Ho. apply in_map_iff in Ho. destruct Ho as (k & <- & Hk). exact Hk. }
+  destruct (life_accounts_vals (assign_all f data) tvals t H HF) as (t' & d & E & H' & P).
+  exists t', d. split; [exact E|]. split.
+  - apply (holds_ext (apply_ops tvals (assign_all f data))); auto. intros i Hi. now apply apply_assign_all.
+  - rewrite written_assign_all in P.
+    replace (map (apply_ops tvals (assign_all f data)) (filter (dr ds TI) data)) with (map f (filter (dr ds TI) data)) in P.
+    + eapply Permutation_app_inv_r. exact P.
+    + apply map_ext_in. intros i Hi. apply filter_In in Hi. symmetry. apply apply_assign_all; tauto.
 Qed.
 End Life.
